@@ -37,9 +37,10 @@ VARIABLES l,       \* next line of the trace
           closed,  \* C07: written files closed in this scenario: [fmt, ch, rate, val, kt, dig, flen]
           canon,   \* C07/C14/C19: digests of the files closed by earlier scenarios with the same cfg.ckey
           nclose,  \* number of write-closes in this scenario
+          aux,     \* scenario-level tables: chexp = digests of generated chunk payloads, keyed by <<datalen, seed, bytes>>
           nscn, nev  \* counters for the evidence
 
-vars == <<l, skip, bad, hs, cont, files, ncid, cfg, fault, closed, canon, nclose, nscn, nev>>
+vars == <<l, skip, bad, hs, cont, files, ncid, cfg, fault, closed, canon, nclose, aux, nscn, nev>>
 
 Ev == Tr[l]
 Has(e, f) == f \in DOMAIN e
@@ -70,6 +71,52 @@ HookOK(s, e) == /\ Has(e, "err") => (e.err # 0) = (e.st.er # 0)
                 /\ e.st.md = s.mode
 
 -----------------------------------------------------------------------------
+\* C13: application chunks (sf_set_chunk and the iterator functions)
+ChunkContainer(fmt) == Major(fmt) \in {M_WAV, M_WAVEX, M_RF64, M_AIFF, M_CAF}
+PadLen(n) == ((n + 3) \div 4) * 4                \* payloads are stored padded to a multiple of four bytes
+
+SetChunkOK(s, e) ==
+    /\ SamePos(s, ObsOf(e))
+    /\ IF s.hw THEN e.ret # 0 /\ e.st.wu = Len(s.wch)                                 \* too late: refused, table untouched
+       ELSE IF ChunkContainer(s.fmt) /\ s.mode # SFM_READ THEN
+            e.ret = 0 /\ e.st.wu = Len(s.wch) + 1 /\ e.st.wu <= e.st.wc               \* stored; used never exceeds capacity
+       ELSE e.ret # 0
+SetChunkPost(s, e) ==
+    IF e.ret = 0 THEN [Adopt(s, ObsOf(e)) EXCEPT !.wch = Append(@, [id |-> e.id, dl |-> e.dl, seed |-> e.seed])]
+    ELSE Adopt(s, ObsOf(e))
+
+OurIds(s) == {s.rch[i].id : i \in 1..Len(s.rch)}
+WithId(q, id) == SelectSeq(q, LAMBDA c : c.id = id)
+
+\* sf_get_chunk_iterator: by id -> NULL iff no stored chunk has that id
+ChItOK(s, e) == e.byid = 1 => (e.null = 1) = (WithId(s.rch, e.id) = <<>>)
+ChItPost(s, e) ==
+    [s EXCEPT !.it = IF e.null = 1 THEN [mode |-> "none"]
+                     ELSE [mode |-> IF e.byid = 1 THEN "id" ELSE "all", q |-> IF e.byid = 1 THEN WithId(s.rch, e.id) ELSE s.rch,
+                           k |-> 0, fresh |-> TRUE]]
+\* sf_next_chunk_iterator: NULL only after every expected chunk has been visited; by id it is NULL exactly then
+ChNextOK(s, e) ==
+    IF s.it.mode = "none" THEN e.null = 1
+    ELSE IF e.null = 1 THEN s.it.k = Len(s.it.q)
+    ELSE s.it.mode = "id" => s.it.k < Len(s.it.q)
+ChNextPost(s, e) == [s EXCEPT !.it = IF e.null = 1 \/ s.it.mode = "none" THEN [mode |-> "none"] ELSE [@ EXCEPT !.fresh = TRUE]]
+
+\* sf_get_chunk_size / sf_get_chunk_data at the current position
+ChunkMatches(c, e) ==
+    LET size == PadLen(c.dl)  m == Min(e.buflen, size)  key == <<c.dl, c.seed, m>> IN
+    /\ e.r1 = 0 /\ e.r2 = 0 /\ e.size = size /\ e.id = c.id
+    /\ key \in DOMAIN aux.chexp /\ aux.chexp[key] = e.dig            \* payload bytes (zero padded), at most buflen of them
+ChGetOK(s, e) ==
+    /\ e.guard = 1                                                    \* never more than the caller's datalen bytes
+    /\ IF s.it.mode = "none" THEN e.r2 # 0
+       ELSE IF s.it.mode = "all" /\ e.id \notin OurIds(s) THEN TRUE   \* one of the container's own chunks
+       ELSE LET idx == IF s.it.fresh THEN s.it.k + 1 ELSE s.it.k IN
+            idx >= 1 /\ idx <= Len(s.it.q) /\ ChunkMatches(s.it.q[idx], e)
+ChGetPost(s, e) ==
+    IF s.it.mode = "none" \/ (s.it.mode = "all" /\ e.id \notin OurIds(s)) THEN s
+    ELSE [s EXCEPT !.it = [@ EXCEPT !.k = IF s.it.fresh THEN @ + 1 ELSE @, !.fresh = FALSE]]
+
+-----------------------------------------------------------------------------
 \* data-path calls on an open handle
 CallOK(s, cv, e) ==
     LET c == CallOf(e) o == ObsOf(e) IN
@@ -82,6 +129,10 @@ CallOK(s, cv, e) ==
          [] e.op = "trunc" -> TruncOK([s EXCEPT !.relax = s.relax \/ s.route = "vio"], cv, c, o)
          [] e.op = "cmd"   -> CmdOK(s, cv, c, o)
          [] e.op = "calc"  -> CalcOK(s, cv, c, o) \/ (s.mode = SFM_RDWR /\ Get(cfg, "f10", 0) = 1)
+         [] e.op = "setchunk" -> SetChunkOK(s, e)
+         [] e.op = "chit"   -> SamePos(s, o) /\ ChItOK(s, e)
+         [] e.op = "chnext" -> SamePos(s, o) /\ ChNextOK(s, e)
+         [] e.op = "chget"  -> SamePos(s, o) /\ ChGetOK(s, e)
          [] OTHER -> SamePos(s, o)       \* queries: errq, info, getstr ... never move anything
 
 CallPost(s, cv, e) ==
@@ -93,6 +144,10 @@ CallPost(s, cv, e) ==
       [] e.op = "seek"  -> SeekPost(s, cv, c, o)
       [] e.op = "trunc" -> TruncPost(s, cv, c, o)
       [] e.op = "cmd"   -> CmdPost(s, cv, c, o)
+      [] e.op = "setchunk" -> [s |-> SetChunkPost(s, e), cv |-> cv]
+      [] e.op = "chit"   -> [s |-> ChItPost(Adopt(s, o), e), cv |-> cv]
+      [] e.op = "chnext" -> [s |-> ChNextPost(Adopt(s, o), e), cv |-> cv]
+      [] e.op = "chget"  -> [s |-> ChGetPost(Adopt(s, o), e), cv |-> cv]
       [] OTHER -> [s |-> Adopt(s, o), cv |-> cv]
 
 \* a raw-less event without state (guard against driver changes)
@@ -104,7 +159,8 @@ NewHandle(e, cid, B, relax) ==
     [life |-> "open", mode |-> ModeOf(e.mode), ch |-> e.ch, fmt |-> e.fmt, rate |-> e.rate,
      B |-> B, gran |-> IsGranular(e.fmt), skb |-> (e.st.sk # 0),      \* (SF_INFO.seekable is zeroed for write handles; the handle itself knows)
      frames |-> IF ModeOf(e.mode) = SFM_WRITE THEN 0 ELSE e.st.fr, rpos |-> e.st.rp, wpos |-> e.st.wp, err |-> (e.st.er # 0),
-     hw |-> (e.st.hw # 0), auto |-> FALSE, relax |-> relax, cid |-> cid, fid |-> e.fid, route |-> e.route, meta |-> <<>>]
+     hw |-> (e.st.hw # 0), auto |-> FALSE, relax |-> relax, cid |-> cid, fid |-> e.fid, route |-> e.route, meta |-> <<>>,
+     wch |-> <<>>, rch |-> <<>>, it |-> [mode |-> "none"]]
 
 OpenFailedOK(e) == /\ e.gerr # 0 /\ e.gmsg > 0              \* C09: NULL, global error with a message
                    /\ Get(e, "fdleak", 0) = 0               \* C16: nothing left behind
@@ -163,7 +219,7 @@ OpenEffect(e) ==
          LET cv == cont[f.cid] n == e.fr * e.ch
              cv2 == IF Len(cv.kt) >= n THEN cv
                     ELSE [cv EXCEPT !.val = cv.val \o Rep(0, n - Len(cv.val)), !.kt = cv.kt \o Rep("-", n - Len(cv.kt))] IN
-         /\ hs' = [hs EXCEPT ![h] = NewHandle(e, f.cid, B, relax)]
+         /\ hs' = [hs EXCEPT ![h] = [NewHandle(e, f.cid, B, relax) EXCEPT !.rch = Get(f, "chunks", <<>>)]]
          /\ cont' = [cont EXCEPT ![f.cid] = cv2]
          /\ ncid' = ncid
     ELSE /\ hs' = [hs EXCEPT ![h] = NewHandle(e, ncid, B, relax)]
@@ -182,7 +238,7 @@ SameBytesOK(s, e) ==
     LET cv == cont[s.cid] IN
     \A i \in 1..Len(closed) :
         LET f == closed[i] IN
-        (f.fmt = s.fmt /\ f.ch = s.ch /\ f.rate = s.rate /\ f.val = cv.val /\ f.kt = cv.kt /\ f.meta = s.meta
+        (f.fmt = s.fmt /\ f.ch = s.ch /\ f.rate = s.rate /\ f.val = cv.val /\ f.kt = cv.kt /\ f.meta = <<s.meta, s.wch>>
             /\ ~(NameInHeader(s.fmt) /\ (f.route = "path") # (s.route = "path")))
           => (f.dig = e.dig /\ f.flen = e.flen)
 \* and equal to what an earlier scenario (other process, other interleaving, other route) with the same key produced
@@ -198,7 +254,7 @@ CloseEffect(s, e) ==
     LET cv == cont[s.cid] IN
     /\ hs' = [hs EXCEPT ![e.h] = Free]
     /\ IF s.mode = SFM_WRITE /\ ~s.relax
-       THEN /\ closed' = Append(closed, [fmt |-> s.fmt, ch |-> s.ch, rate |-> s.rate, val |-> cv.val, kt |-> cv.kt, meta |-> s.meta,
+       THEN /\ closed' = Append(closed, [fmt |-> s.fmt, ch |-> s.ch, rate |-> s.rate, val |-> cv.val, kt |-> cv.kt, meta |-> <<s.meta, s.wch>>,
                                           route |-> s.route, dig |-> e.dig, flen |-> e.flen])
             /\ nclose' = nclose + 1
             /\ canon' = IF Has(cfg, "ckey") /\ ~(cfg.ckey \in DOMAIN canon /\ nclose + 1 <= Len(canon[cfg.ckey]))
@@ -208,7 +264,7 @@ CloseEffect(s, e) ==
        ELSE UNCHANGED <<closed, nclose, canon>>
     /\ files' = IF s.mode = SFM_READ THEN files
                 ELSE [files EXCEPT ![s.fid] = [kind |-> IF s.relax THEN "hostile" ELSE "written", cid |-> s.cid, N |-> s.frames, B |-> s.B,
-                                               fmt |-> s.fmt, ch |-> s.ch, rate |-> s.rate, gen |-> cv.gen, valid |-> TRUE]]
+                                               fmt |-> s.fmt, ch |-> s.ch, rate |-> s.rate, gen |-> cv.gen, valid |-> TRUE, chunks |-> s.wch]]
 
 \* environment copies a backing store (crash image of an open writer, or plain copy of a closed file)
 WriterOf(fid) == {h \in HIDS : hs[h].life = "open" /\ hs[h].fid = fid /\ hs[h].mode # SFM_READ}
@@ -236,17 +292,19 @@ Obs ==
     LET e == Ev IN
     CASE e.op = "open" ->
             /\ hs[e.h].life = "free"
-            /\ OpenOK(e) /\ OpenEffect(e) /\ UNCHANGED <<files, closed, nclose, canon>>
+            /\ OpenOK(e) /\ OpenEffect(e) /\ UNCHANGED <<files, closed, nclose, canon, aux>>
       [] e.op = "close" ->
             /\ hs[e.h].life = "open"
-            /\ LET s == [hs[e.h] EXCEPT !.relax = @ \/ fault] IN CloseOK(s, e) /\ CloseEffect(s, e) /\ UNCHANGED <<cont, ncid>>
-      [] e.op = "file" -> FileEffect(e) /\ UNCHANGED <<hs, cont, ncid, closed, nclose, canon>>
-      [] e.op = "end" -> EndOK(e) /\ UNCHANGED <<hs, cont, files, ncid, closed, nclose, canon>>
+            /\ LET s == [hs[e.h] EXCEPT !.relax = @ \/ fault] IN CloseOK(s, e) /\ CloseEffect(s, e) /\ UNCHANGED <<cont, ncid, aux>>
+      [] e.op = "file" -> FileEffect(e) /\ UNCHANGED <<hs, cont, ncid, closed, nclose, canon, aux>>
+      [] e.op = "end" -> EndOK(e) /\ UNCHANGED <<hs, cont, files, ncid, closed, nclose, canon, aux>>
       [] e.op \in {"crash", "timeout"} -> FALSE                 \* a call that never returned (C03, C15)
-      [] e.op = "errtab" -> ErrTabOK(e) /\ UNCHANGED <<hs, cont, files, ncid, closed, nclose, canon>>
-      [] e.op \in {"fault", "fmtcheck", "fmtenum", "chexp", "chk"} -> UNCHANGED <<hs, cont, files, ncid, closed, nclose, canon>>
+      [] e.op = "errtab" -> ErrTabOK(e) /\ UNCHANGED <<hs, cont, files, ncid, closed, nclose, canon, aux>>
+      [] e.op = "chexp" -> /\ aux' = [aux EXCEPT !.chexp = (<<e.dl, e.seed, e.plen>> :> e.dig) @@ @]
+                           /\ UNCHANGED <<hs, cont, files, ncid, closed, nclose, canon>>
+      [] e.op \in {"fault", "fmtcheck", "fmtenum", "chk"} -> UNCHANGED <<hs, cont, files, ncid, closed, nclose, canon, aux>>
       [] OTHER ->
-            IF e.h < 0 \/ ~HasState(e) THEN (e.op = "errq" => ErrQOK(e)) /\ UNCHANGED <<hs, cont, files, ncid, closed, nclose, canon>>
+            IF e.h < 0 \/ ~HasState(e) THEN (e.op = "errq" => ErrQOK(e)) /\ UNCHANGED <<hs, cont, files, ncid, closed, nclose, canon, aux>>
             ELSE LET s == IF hs[e.h].life = "open" THEN [hs[e.h] EXCEPT !.relax = @ \/ fault] ELSE hs[e.h] IN
                  /\ s.life = "open"
                  /\ (e.op = "errq" => ErrQOK(e))
@@ -254,7 +312,7 @@ Obs ==
                  /\ LET p == CallPost(s, cont[s.cid], e) IN
                     /\ hs' = [hs EXCEPT ![e.h] = p.s]
                     /\ cont' = [cont EXCEPT ![s.cid] = p.cv]
-                 /\ UNCHANGED <<files, ncid, closed, nclose, canon>>
+                 /\ UNCHANGED <<files, ncid, closed, nclose, canon, aux>>
 
 \* coarse reason for a rejection (evaluated only when Obs is not enabled)
 Why(e) ==
@@ -272,23 +330,23 @@ Why(e) ==
 TInit == /\ l = 1 /\ skip = FALSE /\ bad = <<>>
          /\ hs = [h \in HIDS |-> Free] /\ cont = [c \in 0..63 |-> NewContent] /\ files = [f \in FIDS |-> NoFile]
          /\ ncid = 0 /\ cfg = [idx |-> -1] /\ fault = FALSE /\ nscn = 0 /\ nev = 0
-         /\ closed = <<>> /\ nclose = 0 /\ canon = <<>>
+         /\ closed = <<>> /\ nclose = 0 /\ canon = <<>> /\ aux = [chexp |-> <<>>]
 
 TNext ==
     /\ l <= Len(Tr) /\ l' = l + 1
     /\ IF Ev.op = "reset" THEN
             /\ hs' = [h \in HIDS |-> Free] /\ cont' = [c \in 0..63 |-> NewContent] /\ files' = [f \in FIDS |-> NoFile]
             /\ ncid' = 0 /\ cfg' = Ev.cfg /\ fault' = FALSE /\ skip' = FALSE /\ nscn' = nscn + 1
-            /\ closed' = <<>> /\ nclose' = 0
+            /\ closed' = <<>> /\ nclose' = 0 /\ aux' = [chexp |-> <<>>]
             /\ UNCHANGED <<bad, nev, canon>>
-       ELSE IF skip THEN UNCHANGED <<skip, bad, hs, cont, files, ncid, cfg, fault, closed, canon, nclose, nscn, nev>>
+       ELSE IF skip THEN UNCHANGED <<skip, bad, hs, cont, files, ncid, cfg, fault, closed, canon, nclose, aux, nscn, nev>>
        ELSE IF ENABLED Obs THEN
             /\ Obs /\ nev' = nev + 1
             /\ fault' = (fault \/ (Ev.op = "fault" /\ Ev.at > 0))
             /\ UNCHANGED <<skip, bad, cfg, nscn>>
        ELSE /\ skip' = TRUE
             /\ bad' = Append(bad, [s |-> Ev.s, i |-> Ev.i, op |-> Ev.op, why |-> Why(Ev), idx |-> cfg.idx])
-            /\ UNCHANGED <<hs, cont, files, ncid, cfg, fault, closed, canon, nclose, nscn, nev>>
+            /\ UNCHANGED <<hs, cont, files, ncid, cfg, fault, closed, canon, nclose, aux, nscn, nev>>
 
 TSpec == TInit /\ [][TNext]_vars
 
